@@ -247,6 +247,12 @@ def run_case(case) -> Outcome:
             try:
                 y = copy.copy(x) if o == "copy" else copy.deepcopy(x)
             except Exception as exc:  # noqa: BLE001
+                if o == "deepcopy" and not _args_deepcopyable(originals):
+                    # the user's own payload (e.g. a dict_keys view kept as-is by an Any annotation) cannot be deep
+                    # copied by Python itself: not the library's doing
+                    out.unspecified.append("argument-not-deepcopyable-in-plain-python")
+                    unchanged(o)
+                    continue
                 kinds = sorted(set().union(*[TT.term_kinds(t) for t in terms.values()]) & {"map", "any", "callable", "protocol"})
                 out.violate("copy", f"C04.copy/{o}-raised/{type(exc).__name__}/{'+'.join(kinds) or 'plain'}", f"{src}args={case['args']}: {exc!r}")
                 unchanged(o)
@@ -331,6 +337,15 @@ def run_case(case) -> Outcome:
     out.nontrivial = (container_attr and "mutate-original-container" in classes) or "updated-partial" in classes or "cross-class-eq" in classes
     out.sample = {"src": src, "targ": cls.get("targ"), "args": case["args"], "script": case["script"]}
     return out
+
+
+def _args_deepcopyable(originals) -> bool:
+    for v in originals.values():
+        try:
+            copy.deepcopy(v)
+        except Exception:  # noqa: BLE001
+            return False
+    return True
 
 
 def _identity_compared(frozen) -> bool:
